@@ -18,7 +18,7 @@ ASSUMPTIONS = ["wf_corr: an event has at most one opposite-side event with its c
 
 def gen_cases(seed, tier, n):
     out = []
-    profs = ["loader_mix", "default", "fifo_steps", "fifo_tiny"]
+    profs = ["loader_mix", "steps_mix", "fifo_steps", "steps_mix", "fifo_tiny", "loader_mix", "steps_mix", "fifo_steps", "steps_mix", "fifo_tiny", "loader_pad"]
     for i in range(n):
         c = tracegen.gen_case(seed, i, tracegen.PROFILES[profs[i % len(profs)]])
         rng = random.Random(seed * 7919 + i)
@@ -39,7 +39,7 @@ def _is_dev(r):
     return (r["stream"] >= 0 and r["corr"] >= 0) or r["name"] in ("Event Sync", "Context Sync")
 
 
-def spec_check(rows):
+def spec_check(rows, loaded=False):
     """The property itself, evaluated on the implementation's frame (C02_link_mutual / sentinel / never wrong)."""
     bad = []
     by_idx = {r["idx"]: r for r in rows}
@@ -49,14 +49,18 @@ def spec_check(rows):
         if len(partners) == 1:
             if ic != partners[0]["idx"]:
                 bad.append(f"idx {e['idx']}: link {ic} but the unique opposite-side event with correlation {e['corr']} is {partners[0]['idx']}")
-        elif not partners:
+        elif not partners and not loaded:
             want = -1 if e["corr"] == -1 else 0
             if e["corr"] >= -1 and ic != want:
                 bad.append(f"idx {e['idx']}: no counterpart, correlation {e['corr']}: link {ic}, expected sentinel {want}")
         if ic > 0:
             p = by_idx.get(ic)
-            if p is None or p["corr"] != e["corr"] or _is_dev(p) == _is_dev(e):
+            if p is None:
+                bad.append(f"idx {e['idx']}: linked to {ic}, which is not a row of the frame")
+            elif p["corr"] != e["corr"] or _is_dev(p) == _is_dev(e):
                 bad.append(f"idx {e['idx']}: linked to {ic} which has another id or is on the same side")
+            elif p["icorr"] != e["idx"]:
+                bad.append(f"idx {e['idx']}: linked to {ic} but {ic} is linked to {p['icorr']} (not mutual)")
     return bad
 
 
@@ -77,6 +81,8 @@ def compare(case, impl, model):
                     disc.append(f"rank {r} {stage}: idx {row['idx']} index_correlation impl={row['icorr']} model={mi.get(row['idx'])}")
                     break
         disc += [f"rank {r} parse: " + b for b in spec_check(o["parse"][r])[:2]]
+        # the loaded (trimmed) frame must still satisfy the property: no link may dangle or lose its mutual partner
+        disc += [f"rank {r} load(include_last={case['params']['include_last']}): " + b for b in spec_check(o["load"][r], loaded=True)[:2]]
     return disc[:8]
 
 
